@@ -477,6 +477,32 @@ Proof.
   rewrite dict_get_attrs, Hb. reflexivity.
 Qed.
 
+Lemma hcount_min_shape keep rm g g' : hcount_min keep rm g = Ok g' ->
+  g' = g \/ exists v, g' = set_node_attr g keep squash_min_attr v.
+Proof.
+  unfold hcount_min. destruct (node_attrs g keep) as [n|]; cbn [bind]; [|discriminate].
+  destruct (aget (S "contraction") n) as [c|]; cbn [of_option bind]; [|discriminate].
+  destruct c; cbn [bind]; try discriminate.
+  destruct (dict_get (VInt rm) d) as [vd|]; cbn [of_option bind]; [|discriminate].
+  destruct vd; cbn [bind]; try discriminate.
+  destruct (aget squash_min_attr n) as [a|]; [|intros H; inversion H; auto].
+  destruct (dict_get (VStr squash_min_attr) d0) as [b|]; [|intros H; inversion H; auto].
+  destruct (half_of_num a); cbn [bind]; [|discriminate]. destruct (half_of_num b); cbn [bind]; [|discriminate].
+  intros H. inversion H. eauto.
+Qed.
+Lemma hcount_min_keeps keep rm g g' : hcount_min keep rm g = Ok g' ->
+  node_keys g' = node_keys g /\ (forall y x, has_edge g' y x = has_edge g y x) /\
+  (forall y, y <> keep -> nattrs g' y = nattrs g y) /\
+  (forall k a, k <> squash_min_attr -> nattrs g keep = Some a -> exists a', nattrs g' keep = Some a' /\ aget k a' = aget k a).
+Proof.
+  intros H. destruct (hcount_min_shape _ _ _ _ H) as [->|[v ->]].
+  - repeat split; auto. intros k a _ E. eauto.
+  - split; [apply keys_set_node_attr|]. split; [intros; apply has_edge_set_node_attr|]. split.
+    + intros y Ny. rewrite nattrs_set_node_attr. apply Z.eqb_neq in Ny. now rewrite Ny.
+    + intros k a Nk E. rewrite nattrs_set_node_attr, Z.eqb_refl, E. cbn. eexists. split; [reflexivity|].
+      apply aget_aset_other. exact Nk.
+Qed.
+
 (** [squash_membership]: one step of squash_atoms (contraction + the two concatenations) leaves the kept
     atom with fragid = its own list followed by the removed atom's list, likewise mapping; all other
     atoms keep their attribute dicts; adjacency as in [squash_neighbours]. *)
@@ -484,6 +510,7 @@ Theorem squash_membership g u v au av fu fv mu mv : wf_graph g -> u <> v ->
   nattrs g u = Some au -> nattrs g v = Some av ->
   aget (S "fragid") au = Some (VList fu) -> aget (S "fragid") av = Some (VList fv) ->
   aget (S "mapping") au = Some (VList mu) -> aget (S "mapping") av = Some (VList mv) ->
+  hnum au -> hnum av ->
   forall sq a b bond, starts_squash bond = Ok true ->
   sq_root (sq_fuel sq) sq a = Ok u -> sq_root (sq_fuel sq) sq b = Ok v ->
   exists g2, squash_step (g, sq) (a, b, bond) = Ok (g2, sq_set v u sq) /\
@@ -491,10 +518,12 @@ Theorem squash_membership g u v au av fu fv mu mv : wf_graph g -> u <> v ->
     (forall y x, has_edge g2 y x = contracted_edge g u v y x) /\
     (exists A, nattrs g2 u = Some A /\ aget (S "fragid") A = Some (VList (fu ++ fv))
                /\ aget (S "mapping") A = Some (VList (mu ++ mv))
-               /\ forall k, k <> S "fragid" -> k <> S "mapping" -> k <> S "contraction" -> aget k A = aget k au) /\
+               /\ (forall k, k <> S "fragid" -> k <> S "mapping" -> k <> S "contraction" -> k <> squash_min_attr ->
+                           aget k A = aget k au)
+               /\ aget squash_min_attr A = hcount_merged au av /\ hnum A) /\
     (forall y, y <> u -> y <> v -> nattrs g2 y = nattrs g y).
 Proof.
-  intros W Huv Hu Hv Fu Fv Mu Mv sq a b bond Hb Ha Hbv.
+  intros W Huv Hu Hv Fu Fv Mu Mv Hnu Hnv sq a b bond Hb Ha Hbv.
   destruct (contracted_spec g u v au av W Huv Hu Hv) as (h & Hc & K & E & Nu & _ & No).
   destruct (store_get au v (attrs_to_pyval av)) as (c & Sc & Dc).
   unfold squash_step. rewrite Hb. cbn [bind negb]. rewrite Ha, Hbv. cbn [bind].
@@ -517,14 +546,50 @@ Proof.
   assert (N1 : nattrs h1 u = Some A1) by (unfold h1; rewrite nattrs_set_node_attr, Z.eqb_refl, Nu; reflexivity).
   rewrite (concat_attr_spec h1 u v A1 c av (S "mapping") mu mv N1)
     by (try assumption; unfold A1, A0; rewrite ?aget_aset_other by assumption; assumption).
-  cbn [bind]. eexists. split; [reflexivity|].
-  split; [unfold h1; rewrite !keys_set_node_attr; exact K|].
-  split; [intros y x; unfold h1; rewrite !has_edge_set_node_attr; apply E|]. split.
-  - eexists. split; [rewrite nattrs_set_node_attr, Z.eqb_refl, N1; reflexivity|]. cbn [option_map].
-    split; [unfold A1; rewrite aget_aset_other by exact NE5; apply aget_aset_same|].
-    split; [apply aget_aset_same|].
-    intros k X Y Z_. unfold A1, A0. rewrite !aget_aset_other by assumption. reflexivity.
-  - intros y Nyu Nyv. unfold h1. rewrite !nattrs_set_node_attr. apply Z.eqb_neq in Nyu. rewrite Nyu. apply No; [now apply Z.eqb_neq|assumption].
+  cbn [bind].
+  set (h2 := set_node_attr h1 u (S "mapping") (VList (mu ++ mv))).
+  set (A2 := aset (S "mapping") (VList (mu ++ mv)) A1).
+  assert (N2 : nattrs h2 u = Some A2) by (unfold h2; rewrite nattrs_set_node_attr, Z.eqb_refl, N1; reflexivity).
+  assert (NH1 : squash_min_attr <> S "fragid") by (intro X; vm_compute in X; discriminate).
+  assert (NH2 : squash_min_attr <> S "mapping") by (intro X; vm_compute in X; discriminate).
+  assert (NH3 : squash_min_attr <> S "contraction") by (intro X; vm_compute in X; discriminate).
+  assert (C2 : aget (S "contraction") A2 = Some (VDict c))
+    by (unfold A2, A1; rewrite !aget_aset_other by assumption; exact C0).
+  assert (H2 : aget squash_min_attr A2 = aget squash_min_attr au)
+    by (unfold A2, A1, A0; rewrite !aget_aset_other by assumption; reflexivity).
+  (* the hcount write *)
+  assert (HM : exists g3, hcount_min u v h2 = Ok g3 /\
+             (g3 = h2 /\ hcount_merged au av = aget squash_min_attr au \/
+              exists x, g3 = set_node_attr h2 u squash_min_attr x /\ hcount_merged au av = Some x /\
+                        exists hx, half_of_num x = Ok hx)).
+  { unfold hcount_min, node_attrs. unfold nattrs in N2. destruct (gfind u h2) as [n2|]; [|discriminate].
+    cbn in N2. inversion N2 as [EA]. cbn [bind]. rewrite EA, C2. cbn [of_option bind].
+    pose proof Dc as Dc'. unfold attrs_to_pyval in Dc'. rewrite Dc'. cbn [of_option bind].
+    rewrite dict_get_attrs, H2. unfold hcount_merged, hnum in *.
+    destruct (aget squash_min_attr au) as [x|]; [|eexists; split; [reflexivity|left; auto]].
+    destruct (aget squash_min_attr av) as [y|]; [|eexists; split; [reflexivity|left; auto]].
+    destruct Hnu as [hx Ex]. destruct Hnv as [hy Ey]. rewrite Ex, Ey. cbn [bind].
+    eexists. split; [reflexivity|]. right. eexists. split; [reflexivity|]. split; [reflexivity|].
+    destruct (hy <? hx); eauto. }
+  destruct HM as (g3 & HM & Cases). rewrite HM. cbn [bind]. exists g3. split; [reflexivity|].
+  destruct (hcount_min_keeps _ _ _ _ HM) as (K3 & E3 & O3 & _).
+  split; [rewrite K3; unfold h2, h1; rewrite !keys_set_node_attr; exact K|].
+  split; [intros y x; rewrite E3; unfold h2, h1; rewrite !has_edge_set_node_attr; apply E|]. split.
+  - assert (Base : aget (S "fragid") A2 = Some (VList (fu ++ fv)) /\ aget (S "mapping") A2 = Some (VList (mu ++ mv)) /\
+                   forall k, k <> S "fragid" -> k <> S "mapping" -> k <> S "contraction" -> aget k A2 = aget k au).
+    { split; [unfold A2, A1; rewrite aget_aset_other by exact NE5; apply aget_aset_same|].
+      split; [apply aget_aset_same|]. intros k X Y Z_. unfold A2, A1, A0. rewrite !aget_aset_other by assumption. reflexivity. }
+    destruct Base as (BF & BM & BO).
+    destruct Cases as [[-> Hm]|(x & -> & Hm & hx & Ehx)].
+    + exists A2. split; [exact N2|]. split; [exact BF|]. split; [exact BM|]. split; [intros k X Y Z_ _; apply BO; assumption|].
+      split; [rewrite Hm; exact H2|]. unfold hnum. rewrite H2. exact Hnu.
+    + exists (aset squash_min_attr x A2). split; [rewrite nattrs_set_node_attr, Z.eqb_refl, N2; reflexivity|].
+      split; [rewrite aget_aset_other by (intro X; apply NH1; now symmetry); exact BF|].
+      split; [rewrite aget_aset_other by (intro X; apply NH2; now symmetry); exact BM|].
+      split; [intros k X Y Z_ Q; rewrite aget_aset_other by exact Q; apply BO; assumption|].
+      split; [rewrite aget_aset_same; now symmetry|]. unfold hnum. rewrite aget_aset_same. eauto.
+  - intros y Nyu Nyv. rewrite (O3 y Nyu). unfold h2, h1. rewrite !nattrs_set_node_attr. apply Z.eqb_neq in Nyu. rewrite Nyu.
+    apply No; [now apply Z.eqb_neq|assumption].
 Qed.
 
 (** ------------------------------------------------------------ the whole loop: node count *)
@@ -647,7 +712,8 @@ Proof. apply existsb_eqb_In_. Qed.
 
 Lemma squash_merge gi keep rm g2 : wf_graph gi -> keep <> rm ->
   has_node gi keep = true -> has_node gi rm = true ->
-  (g1 <- contracted squash_self_loops gi keep rm ;; fold_res (concat_attr keep rm) squash_concat_attrs g1) = Ok g2 ->
+  (g1 <- contracted squash_self_loops gi keep rm ;; g2 <- fold_res (concat_attr keep rm) squash_concat_attrs g1 ;;
+   hcount_min keep rm g2) = Ok g2 ->
   wf_graph g2 /\ node_keys g2 = filter (fun k => negb (Z.eqb k rm)) (node_keys gi).
 Proof.
   intros W Hne Hk Hr H.
@@ -657,9 +723,12 @@ Proof.
     by (apply has_node_gfind in Hr as [n Hn]; unfold nattrs; rewrite Hn; cbn; eauto).
   destruct (contracted_spec gi keep rm au av W Hne Hu Hv) as (h & Hc & K & E & _).
   change squash_self_loops with false in H. rewrite Hc in H. cbn [bind] in H.
-  destruct (concat_fold_shape _ _ _ _ _ H) as [K2 E2].
+  destruct (fold_res (concat_attr keep rm) squash_concat_attrs h) as [gc|] eqn:Cf; cbn [bind] in H; [|discriminate].
+  destruct (concat_fold_shape _ _ _ _ _ Cf) as [K2 E2].
+  destruct (hcount_min_keeps _ _ _ _ H) as (K3 & E3 & _).
   pose proof (wf_contracted gi keep rm h W Hne Hk Hr K E) as Wh.
-  split; [exact (wf_transfer h g2 K2 E2 Wh)|congruence].
+  assert (Wc : wf_graph gc) by exact (wf_transfer h gc K2 E2 Wh).
+  split; [exact (wf_transfer gc g2 K3 E3 Wc)|congruence].
 Qed.
 
 Definition bangs (l : list (Z * Z * pyval)) : list (Z * Z) :=
@@ -699,10 +768,13 @@ Proof.
       destruct (Z.eqb_spec keep rm) as [E|Hne].
       * (* redundant pair: skipped *) exact (IH gi sq g' sq' W F Hal Hv Hl' H).
       * destruct (g1 <- contracted squash_self_loops gi keep rm ;;
-                  fold_res (concat_attr keep rm) squash_concat_attrs g1) as [g2|] eqn:St.
-        2:{ destruct (contracted squash_self_loops gi keep rm); cbn [bind] in St, H; [rewrite St in H|]; discriminate. }
+                  g2 <- fold_res (concat_attr keep rm) squash_concat_attrs g1 ;; hcount_min keep rm g2) as [g2|] eqn:St.
+        2:{ destruct (contracted squash_self_loops gi keep rm) as [g1|]; cbn [bind] in St, H; [|discriminate].
+            destruct (fold_res (concat_attr keep rm) squash_concat_attrs g1) as [gc|]; cbn [bind] in St, H; [|discriminate].
+            rewrite St in H. discriminate. }
         assert (H2 : fold_res squash_step l (g2, sq_set rm keep sq) = Ok (g', sq')).
         { destruct (contracted squash_self_loops gi keep rm) as [g1|]; cbn [bind] in St, H; [|discriminate].
+          destruct (fold_res (concat_attr keep rm) squash_concat_attrs g1) as [gc|]; cbn [bind] in St, H; [|discriminate].
           rewrite St in H. exact H. }
         assert (Hk : has_node gi keep = true) by (rewrite Hal, Ak, Nk; reflexivity).
         assert (Hr : has_node gi rm = true) by (rewrite Hal, Ar, Nr; reflexivity).
@@ -881,10 +953,10 @@ Proof.
   eexists. split; [vm_compute; reflexivity|]. repeat split.
 Qed.
 
-(** REFUTED (class stale-hcount-aromatic): toluene with the ring atom shared, the methyl fragment first.
-    squash_atoms returns, but the kept copy 0 still carries the hydrogen
-    count 1.5 of its own fragment although it now has three ring/methyl bonds: bonds + hcount exceed the
-    valence, which is what pysmiles' aromaticity correction reads next. *)
+(** formerly REFUTED (class stale-hcount-aromatic, repaired by /repo e7bad38): toluene with the ring atom
+    shared, the methyl fragment first.  The kept copy 0 had the hydrogen count 1.5 of its own fragment; it
+    now gets the minimum of both copies' counts (0, the ring atom's), so bonds + hcount no longer exceed the
+    valence and pysmiles' aromaticity correction keeps the atom in the ring. *)
 From CGV Require Hydro.HydroCheck Hydro.SquashCheck.
 Definition g_toluene : graph :=
   [atom_ 0 (S "C") true (VFlt (S "1.5")) 0 [(1, single_); (7, bang_ (VFlt (S "1.5")))];
@@ -895,11 +967,12 @@ Definition g_toluene : graph :=
    atom_ 5 (S "C") true (VInt 1) 1 [(4, arom_); (6, arom_)];
    atom_ 6 (S "C") true (VInt 1) 1 [(5, arom_); (7, arom_)];
    atom_ 7 (S "C") true (VInt 0) 1 [(6, arom_); (2, arom_); (0, bang_ (VFlt (S "1.5")))]].
-Lemma refuted_stale_hcount :
+Example toluene_resolves :
   wf_graph g_toluene /\
   exists g', squash_atoms g_toluene = Ok g' /\
-             SquashCheck.stale_hcount_aromatic (observe g') = true /\
-             node_get g' 0 (S "hcount") = Some (VFlt (S "1.5")) /\ bonds_half g' 0 = Ok 8.
+             SquashCheck.stale_hcount_aromatic (observe g') = false /\
+             node_get g' 0 (S "hcount") = Some (VInt 0) /\ bonds_half g' 0 = Ok 8 /\
+             node_get g' 0 (S "fragid") = Some (VList [VInt 0; VInt 1]).
 Proof.
   split; [apply wf_graphb_sound; vm_compute; reflexivity|].
   eexists. split; [vm_compute; reflexivity|]. repeat split.
@@ -911,18 +984,19 @@ Qed.
 Definition tgood (a : attrs) : Prop :=
   (exists l, aget (S "fragid") a = Some (VList l)) /\ (exists l, aget (S "mapping") a = Some (VList l)).
 Definition typed_g (g : graph) : Prop := forall i a, nattrs g i = Some a -> tgood a.
+Definition hnum_g (g : graph) : Prop := forall i a, nattrs g i = Some a -> hnum a.
 Definition bondings_ok (l : list (Z * Z * pyval)) : Prop := forall e, In e l -> exists b, starts_squash (snd e) = Ok b.
 
 Lemma squash_fold_total alive l : forall gi sq,
-  wf_graph gi -> fwd sq -> typed_g gi ->
+  wf_graph gi -> fwd sq -> typed_g gi -> hnum_g gi ->
   (forall k, has_node gi k = zmem k alive && negb (zmem k (sq_keys sq))) ->
   (forall kv, In kv sq -> zmem (snd kv) alive = true) ->
   (forall e, In e l -> zmem (fst (fst e)) alive = true /\ zmem (snd (fst e)) alive = true) ->
   bondings_ok l ->
-  exists g' sq', fold_res squash_step l (gi, sq) = Ok (g', sq') /\ typed_g g'.
+  exists g' sq', fold_res squash_step l (gi, sq) = Ok (g', sq') /\ typed_g g' /\ hnum_g g'.
 Proof.
-  induction l as [|[[a b] bond] l IH]; intros gi sq W F T Hal Hv Hl Hb.
-  - exists gi, sq. split; [reflexivity|assumption].
+  induction l as [|[[a b] bond] l IH]; intros gi sq W F T HN Hal Hv Hl Hb.
+  - exists gi, sq. split; [reflexivity|split; assumption].
   - assert (Hl' : forall e, In e l -> zmem (fst (fst e)) alive = true /\ zmem (snd (fst e)) alive = true)
       by (intros e He; apply Hl; now right).
     assert (Hb' : bondings_ok l) by (intros e He; apply Hb; now right).
@@ -950,8 +1024,8 @@ Proof.
         assert (exists av, nattrs gi rm = Some av) as [av Hv']
           by (apply has_node_gfind in Hr as [n Hn]; unfold nattrs; rewrite Hn; cbn; eauto).
         destruct (T keep au Hu) as [[fu Fu] [mu Mu]]. destruct (T rm av Hv') as [[fv Fv] [mv Mv]].
-        destruct (squash_membership gi keep rm au av fu fv mu mv W Hne Hu Hv' Fu Fv Mu Mv sq a b bond Eb Rk Rr)
-          as (g2 & St & K2 & E2 & (A & NA & FA & MA & _) & O2).
+        destruct (squash_membership gi keep rm au av fu fv mu mv W Hne Hu Hv' Fu Fv Mu Mv (HN keep au Hu) (HN rm av Hv') sq a b bond Eb Rk Rr)
+          as (g2 & St & K2 & E2 & (A & NA & FA & MA & _ & _ & HA) & O2).
         rewrite St. cbn [bind].
         assert (W2 : wf_graph g2) by (exact (wf_contracted gi keep rm g2 W Hne Hk Hr K2 E2)).
         assert (Fr : ~ In rm (sq_keys sq)) by (rewrite <- zmem_In, Nr; discriminate).
@@ -965,6 +1039,13 @@ Proof.
                  { unfold nattrs in Gi. apply has_node_gfind. destruct (gfind rm g2); [eauto|discriminate]. }
                  apply has_node_keys in X. rewrite K2 in X. apply filter_In in X as [_ X]. rewrite Z.eqb_refl in X. discriminate.
               ** rewrite O2 in Gi by assumption. exact (T i ai Gi).
+        -- intros i ai Gi. destruct (Z.eq_dec i keep) as [->|Ni].
+           ++ rewrite NA in Gi. inversion Gi; subst ai. exact HA.
+           ++ destruct (Z.eq_dec i rm) as [->|Nr'].
+              ** exfalso. assert (X : has_node g2 rm = true).
+                 { unfold nattrs in Gi. apply has_node_gfind. destruct (gfind rm g2); [eauto|discriminate]. }
+                 apply has_node_keys in X. rewrite K2 in X. apply filter_In in X as [_ X]. rewrite Z.eqb_refl in X. discriminate.
+              ** rewrite O2 in Gi by assumption. exact (HN i ai Gi).
         -- intros k. apply Bool.eq_iff_eq_true.
            rewrite has_node_keys, K2, filter_In, <- has_node_keys, Hal. unfold sq_keys. rewrite map_app. cbn [map fst].
            unfold zmem. rewrite existsb_app. cbn [existsb]. fold (zmem k (map fst sq)). fold (sq_keys sq).
@@ -977,14 +1058,14 @@ Qed.
 
 (** [squash_total]: on a well-formed, typed graph squash_atoms ALWAYS returns (no KeyError / TypeError is
     left), and the count theorem applies to what it returns *)
-Theorem squash_total g : wf_graph g -> typed_g g -> bondings_ok (edge_attr_items g squash_edge_attr) ->
+Theorem squash_total g : wf_graph g -> typed_g g -> hnum_g g -> bondings_ok (edge_attr_items g squash_edge_attr) ->
   exists g', squash_atoms g = Ok g' /\ typed_g g' /\ wf_graph g' /\
              (length g' + length (squash_plan [] (bang_items g)) = length g)%nat.
 Proof.
-  intros W T B.
+  intros W T HN B.
   assert (Hal : forall k, has_node g k = zmem k (node_keys g) && negb (zmem k (sq_keys []))).
   { intros k. cbn. rewrite andb_true_r. apply Bool.eq_iff_eq_true. rewrite has_node_keys, zmem_In. tauto. }
-  destruct (squash_fold_total (node_keys g) (edge_attr_items g squash_edge_attr) g [] W I T Hal) as (g' & sq' & Fd & T').
+  destruct (squash_fold_total (node_keys g) (edge_attr_items g squash_edge_attr) g [] W I T HN Hal) as (g' & sq' & Fd & T' & _).
   - intros kv [].
   - intros e He. destruct (items_are_edges g _ e W He) as [A B']. rewrite !zmem_In, <- !has_node_keys. auto.
   - exact B.
@@ -1006,4 +1087,11 @@ Proof.
   destruct (aget (S "fragid") (na n)) as [[| | | | |l| |]|] eqn:Ef; cbv beta iota in H; try discriminate H.
   destruct (aget (S "mapping") (na n)) as [[| | | | |l'| |]|] eqn:Em; cbv beta iota in H; try discriminate H.
   split; [eexists; exact Ef|eexists; exact Em].
+Qed.
+Lemma hnum_gb_sound g : hnum_gb g = true -> hnum_g g.
+Proof.
+  unfold hnum_gb. rewrite forallb_forall. intros H i a G. unfold nattrs in G.
+  destruct (gfind i g) as [n|] eqn:Gi; [|discriminate]. cbn in G. inversion G; subst a.
+  specialize (H n (gfind_In _ _ _ Gi)). unfold hnumb in H. unfold hnum.
+  destruct (aget squash_min_attr (na n)) as [v|]; [|exact I]. destruct (half_of_num v) as [h|]; [eauto|discriminate].
 Qed.
